@@ -1,6 +1,7 @@
 package ntske
 
 import (
+	"bytes"
 	"context"
 	"crypto/tls"
 	"encoding/hex"
@@ -142,6 +143,13 @@ const maxStoredCookies = 8
 func (f *Fetcher) StoreCookie(cookie []byte) {
 	if len(f.data.Cookie) >= maxStoredCookies {
 		return
+	}
+	// A cookie is used for one request only: do not keep a second copy of one
+	// that a server hands out repeatedly.
+	for _, c := range f.data.Cookie {
+		if bytes.Equal(c, cookie) {
+			return
+		}
 	}
 	f.data.Cookie = append(f.data.Cookie, cookie)
 }
